@@ -83,6 +83,34 @@ func (w *World) UnitByKey(key string) *Unit {
 	return &Unit{Name: shortKey(key), Key: key, Fn: fn, Spec: fs}
 }
 
+// ImplKeys lists the keys of the methods that implement an interface-method contract key for the types coupled with the
+// interface by "represents" directives, e.g. (pkg.Transport).Writable -> (*pkg.transport).Writable.
+func (w *World) ImplKeys(ifaceKey string) []string {
+	if !strings.HasPrefix(ifaceKey, "(") {
+		return nil
+	}
+	i := strings.Index(ifaceKey, ")")
+	tn, m := ifaceKey[1:i], strings.TrimPrefix(ifaceKey[i+1:], ".")
+	seen := map[string]bool{}
+	var out []string
+	for _, rp := range w.Reps {
+		if rp.Pkg+"."+rp.Iface != tn {
+			continue
+		}
+		impl := strings.TrimSuffix(strings.TrimPrefix(rp.Impl, "("), ")")
+		star := ""
+		if strings.HasPrefix(impl, "*") {
+			star, impl = "*", impl[1:]
+		}
+		k := "(" + star + rp.Pkg + "." + impl + ")." + m
+		if !seen[k] {
+			seen[k] = true
+			out = append(out, k)
+		}
+	}
+	return out
+}
+
 // ContractKind classifies a contract key for the evidence: "interface-model" (contract of an interface method, a model
 // that in-repo implementations are assumed to satisfy), "trusted", "external", "verified" (has a body and a unit) or "".
 func (w *World) ContractKind(key string) string {
@@ -561,6 +589,7 @@ func (x *exec) atReturn(st *State, u *Unit, rets []Value, captured []captVar, nr
 		g := x.guardedGoal(env, cl.Expr)
 		e.obligation(st, "post", clauseName(cl, i), cl.Tag, cl.Text, cl.Pos.String(), g)
 	}
+	x.refinementCheck(st, u, rets)
 	x.frameCheck(st, u, "")
 }
 
@@ -794,4 +823,120 @@ func (e *Engine) finish() string {
 		}
 	}
 	return e.ctx.Header()
+}
+
+
+// refinementCheck proves, for a method of a type that a "represents" directive couples with an interface, the ensures
+// clauses of the interface method's model contract, with every ghost field of the receiver read through its coupling
+// expression (behavioural subtyping: what callers assume about the interface method holds for this implementation).
+func (x *exec) refinementCheck(st *State, u *Unit, rets []Value) {
+	e := x.e
+	fn := u.Fn
+	if fn.Signature.Recv() == nil || len(e.w.Reps) == 0 || len(fn.Params) == 0 {
+		return
+	}
+	recvT := fn.Signature.Recv().Type()
+	rk := typeKey(recvT)
+	byIface := map[string]map[string]*spec.Represents{}
+	for _, rp := range e.w.Reps {
+		impl := strings.TrimSuffix(strings.TrimPrefix(rp.Impl, "("), ")")
+		star := strings.HasPrefix(impl, "*")
+		impl = strings.TrimPrefix(impl, "*")
+		full := rp.Pkg + "." + impl
+		if star {
+			full = "*" + full
+		}
+		if full != rk {
+			continue
+		}
+		if byIface[rp.Iface] == nil {
+			byIface[rp.Iface] = map[string]*spec.Represents{}
+		}
+		byIface[rp.Iface][rp.Ghost] = rp
+	}
+	for iface, reps := range byIface {
+		var pkg string
+		for _, rp := range reps {
+			pkg = rp.Pkg
+		}
+		key := "(" + pkg + "." + iface + ")." + fn.Name()
+		fs := e.w.Contracts[key]
+		if fs == nil || len(fs.Ensures) == 0 {
+			continue
+		}
+		env := x.newEnv(st, fs)
+		env.old = u.entry
+		env.reps = reps
+		names := map[string]Value{}
+		// interface contract parameter names: this + declared names (or the method's own)
+		pn := fs.Names
+		recv := u.entryNames[fn.Params[0].Name()]
+		names["this"] = recv
+		for i, p := range fn.Params[1:] {
+			n := p.Name()
+			if i < len(pn) {
+				n = pn[i]
+			}
+			names[n] = u.entryNames[p.Name()]
+		}
+		env.oldNames = names
+		env.names = map[string]Value{}
+		for k, v := range names {
+			env.names[k] = v
+		}
+		res := fn.Signature.Results()
+		for i := 0; i < res.Len() && i < len(rets); i++ {
+			r := rets[i].withT(res.At(i).Type())
+			env.names[fmt.Sprintf("result%d", i)] = r
+		}
+		if res.Len() == 1 && len(rets) == 1 {
+			env.names["result"] = rets[0].withT(res.At(0).Type())
+		}
+		// frame of the model contract: every model field it does not list keeps its value
+		if !fs.ModAll {
+			listed := map[string]bool{}
+			for _, m := range fs.Modifies {
+				if sel, ok := m.(*spec.Sel); ok && strings.HasPrefix(sel.Name, "$") {
+					listed[sel.Name] = true
+				}
+			}
+			var gs []string
+			for g := range reps {
+				gs = append(gs, g)
+			}
+			sort.Strings(gs)
+			for _, g := range gs {
+				if listed[g] {
+					continue
+				}
+				func() {
+					defer func() { recover() }()
+					post := env.ghostField(recv, g)
+					oenv := env.child()
+					oenv.st = u.entry
+					pre := oenv.ghostField(recv, g)
+					if len(post.L) == 1 && len(pre.L) == 1 {
+						e.obligation(st, "refines", fmt.Sprintf("%s.%s:frame:%s", iface, fn.Name(), g), "",
+							"the model contract of "+iface+"."+fn.Name()+" does not list "+g+" under modifies: its represents expression keeps its value", fs.Pos.String(), smt.Eq(post.L[0], pre.L[0]))
+					}
+				}()
+			}
+		}
+		for i, cl := range fs.Ensures {
+			func() {
+				defer func() {
+					if r := recover(); r != nil {
+						if _, ok := r.(traceAtCallSite); ok {
+							return
+						}
+						panic(r)
+					}
+				}()
+				env.atCallSite = true // trace clauses of the interface contract are not part of what callers assume
+				g := env.evalGoal(cl.Expr)
+				e.obligation(st, "refines", fmt.Sprintf("%s.%s:%s", iface, fn.Name(), clauseName(cl, i)), cl.Tag,
+					cl.Text+"   [model contract of "+iface+"."+fn.Name()+", ghost fields read through their represents expressions]", cl.Pos.String(), g)
+			}()
+		}
+	}
 }
